@@ -2,6 +2,7 @@ package main
 
 import (
 	"golang.org/x/tools/go/ssa"
+	"path/filepath"
 )
 
 // fixGraph builds (and caches) the module call graph of the library plus one fixture package.
@@ -128,6 +129,18 @@ func init() {
 		g, fs := c.fixGraph(key)
 		runLOCKIn(c, r, "LOCK", g, fs, nil, true)
 	}
+	bnd := func(c *Ctx, r *Result, key string) {
+		g, fs := c.fixGraph(key)
+		dir := filepath.Join(c.VerifDir, "checker")
+		res, err := bceResiduals(dir, dir, c.W.Arch, []string{"./fixtures/" + key})
+		if err != nil {
+			r.LoseAnchor("BND fixture: %v", err)
+			return
+		}
+		runBND(c, r, "BND", fixFuncs(c, g, fs), nil, res)
+	}
+	registerFixture(fixtureCheck{Group: "bnd", Pkg: "bnd/bad", Run: bnd, Want: []string{"bnd/bad.Digits:buf[:n]#1", "bnd/bad.From:s[i:]#1", "bnd/bad.At:xs[n]#1"}})
+	registerFixture(fixtureCheck{Group: "bnd", Pkg: "bnd/good", Run: bnd})
 	registerFixture(fixtureCheck{Group: "lock", Pkg: "lock/bad", Run: lock, Want: []string{"lock/bad.Register:registry-access#1", "lock/bad.Compile:registry-noescape#1", "lock/bad.Leak:mu-exit"}})
 	registerFixture(fixtureCheck{Group: "lock", Pkg: "lock/good", Run: lock})
 }
